@@ -68,6 +68,14 @@ func NewPageNumberFinder(wc stringutil.WordCounter, timingInfo *data.TimingInfo,
 }
 
 func (pnf *PageNumberFinder) FindPagination(root *html.Node, pageURL *nurl.URL) (pagination data.PaginationInfo) {
+	// "javascript:" links only serve as placeholders when looking for adjacent page
+	// numbers, they must never be reported, neither as next nor as previous page.
+	defer func() {
+		if strings.HasPrefix(pagination.PrevPage, "javascript:") {
+			pagination.PrevPage = ""
+		}
+	}()
+
 	url := *pageURL
 	url.Path = strings.TrimSuffix(url.Path, "/")
 	url.RawPath = url.Path
